@@ -739,21 +739,25 @@ fn update_case(old: &str, new: &str, attrs: &[Attribution], author: &str, ts: u1
         if let (Ok(before), Ok(after)) = (&before, &after) {
             if old == new {
                 tags.push("identity".into());
+                // the real diff of a text with itself is one Equal segment (or none)
+                let one_equal = if old.is_empty() { segs.is_empty() } else { segs.len() == 1 && segs[0].0 == 0 };
+                oracles.push(oracle("identity_segments", one_equal, json!({"input": witness, "segs": jsegs(&segs)}), "contract:identity-segments"));
                 let same = before == after;
-                let sig = if same || tame {
-                    "identity"
-                } else if attrs.iter().any(|a| a.start >= a.end) {
-                    "identity:empty-or-inverted-prior"
-                } else if attrs.iter().any(|a| a.end > old.len()) {
-                    "identity:out-of-range-prior"
+                let inverted = attrs.iter().any(|a| a.start > a.end);
+                let zero_len = attrs.iter().any(|a| a.start == a.end && a.start < old.len());
+                let ts_shared = attrs.iter().any(|a| attrs.iter().any(|b| a.ts == b.ts && a.author_id != b.author_id));
+                if inverted {
+                    // not in the property's quantifier (a range with end < start)
+                    tags.push(format!("identity-inverted-prior:{}", if same { "same" } else { "differs" }));
                 } else {
-                    "identity:timestamp-shared-by-authors"
-                };
-                // the statement is claimed for tame priors; the other families are recorded by tag
-                if tame {
+                    let sig = if zero_len {
+                        "identity:zero-length-prior"
+                    } else if ts_shared {
+                        "identity:timestamp-shared-by-authors"
+                    } else {
+                        "identity"
+                    };
                     oracles.push(oracle("identity_keeps_lines", same, json!({"input": witness, "before": jlines(before), "after": jlines(after)}), sig));
-                } else {
-                    tags.push(format!("identity-untame:{}", if same { "same" } else { sig }));
                 }
             }
             // whitespace-only reformat that keeps the line structure
@@ -874,13 +878,12 @@ fn synthetic_case(rng: &mut Rng, em: &mut Emitter) {
     };
     let witness = json!({"kind": "transform", "segs": jsegs(&segs), "subst": jpairs(&subst), "moves": jmoves(&moves),
                          "attrs": jattrs(&attrs), "author": author, "ts": ts as u64});
-    let inverted = attrs.iter().any(|a| a.start > a.end);
     let mut oracles = Vec::new();
-    // no panic when the insertion indices are in range and no prior range is inverted
-    if mv_ok && !inverted {
+    // no panic when the insertion indices are in range
+    if mv_ok {
         oracles.push(oracle("no_panic", raw.is_ok(), json!({"input": witness}), "panic:transform"));
     } else if raw.is_err() {
-        tags.push(if !mv_ok { "panic:bad-insertion-index".into() } else { "panic:inverted-prior".into() });
+        tags.push("panic:bad-insertion-index".into());
     }
     if let Ok(out) = &raw {
         let valid_moves = moves.iter().all(|m| {
